@@ -93,13 +93,15 @@ async fn delete_consumer_offset(
     query: Query<DeleteConsumerOffset>,
 ) -> Result<StatusCode, CustomError> {
     let consumer = Consumer::new(consumer_id.try_into()?);
+    let stream_identifier = Identifier::from_str_value(&stream_id)?;
+    let topic_identifier = Identifier::from_str_value(&topic_id)?;
     let system = state.system.read().await;
     system
         .delete_consumer_offset(
             &Session::stateless(identity.user_id, identity.ip_address),
             consumer,
-            &query.stream_id,
-            &query.topic_id,
+            &stream_identifier,
+            &topic_identifier,
             query.partition_id,
         )
         .await
